@@ -79,6 +79,10 @@ impl<MF, CC> SorterBuilder<MF, CC> {
     /// The amount of memory to reach that will trigger a memory dump from in memory to disk.
     pub fn dump_threshold(&mut self, memory: usize) -> &mut Self {
         self.dump_threshold = cmp::max(memory, MIN_SORTER_MEMORY);
+        #[cfg(grenad_verif)]
+        if let Some(min) = crate::verif::min_sorter_memory_override() {
+            self.dump_threshold = cmp::max(memory, min);
+        }
         self
     }
 
@@ -181,6 +185,11 @@ impl<MF, CC: ChunkCreator> SorterBuilder<MF, CC> {
     pub fn build(self) -> Sorter<MF, CC> {
         let capacity =
             if self.allow_realloc { INITIAL_SORTER_VEC_SIZE } else { self.dump_threshold };
+        #[cfg(grenad_verif)]
+        let capacity = match crate::verif::initial_sorter_vec_size_override() {
+            Some(initial) if self.allow_realloc => initial,
+            _ => capacity,
+        };
 
         Sorter {
             chunks: Vec::new(),
@@ -499,6 +508,18 @@ where
 
     fn threshold_exceeded(&self) -> bool {
         self.entries.memory_usage() >= self.dump_threshold
+    }
+
+    /// Read-only view of the bookkeeping numbers the spill decision depends on.
+    #[cfg(grenad_verif)]
+    pub fn verif_state(&self) -> crate::verif::SorterState {
+        crate::verif::SorterState {
+            buffer_len: self.entries.buffer.len(),
+            entries_len: self.entries.entries_len,
+            bounds_count: self.entries.bounds_count,
+            chunks_len: self.chunks.len(),
+            dump_threshold: self.dump_threshold,
+        }
     }
 
     /// Returns the exact amount of bytes written to disk, the value can be trusted,
